@@ -633,16 +633,24 @@ void run_case(Ctx& c) {
         // of CPU on its own (copy-on-write faults, allocator quarantine).  A reference child that splits into 254 shares
         // (which cannot reach the n = 255 path) calibrates the budget; a split that really does not terminate exceeds any budget.
         Secret ref_secret{};
-        SplitOut ref = split_forked(ref_secret, 2, 254, 120.0);
+        SplitOut ref = split_forked(ref_secret, std::min(th, 254u), 254, 120.0);   // same threshold, one share fewer
+        c.count("reference_child_cpu_ms", static_cast<std::uint64_t>(ref.cpu * 1000));
         if (ref.kind == SplitOut::Ok && ref.cpu > 0.05) {
             c.label("forked_child_slow_in_this_process");
-            SplitOut again = split_forked(secret, th, n, 50.0 * ref.cpu + 2.0);
+            SplitOut again = split_forked(secret, th, n, 10.0 * ref.cpu + 2.0);
             if (again.kind != SplitOut::Timeout) c.label("split_timeout_was_the_environment");
             so = again;
         } else if (ref.kind != SplitOut::Ok) {
             c.label("reference_child_failed_inconclusive");
             vclock::rng_clear_queue();
             return;
+        }
+        // A split that does not terminate does so every time.  A forked child of a sanitizer process can also get stuck
+        // by accident (it inherits whatever locks other threads of the runtime held at fork time and spins on them):
+        // only a timeout that repeats twice more, each in a fresh child, is reported.
+        for (int attempt = 0; attempt < 2 && so.kind == SplitOut::Timeout; ++attempt) {
+            SplitOut again = split_forked(secret, th, n, std::max(2.0, 10.0 * ref.cpu + 2.0));
+            if (again.kind != SplitOut::Timeout) { c.label("split_timeout_not_reproduced"); so = again; }
         }
     }
     vclock::rng_clear_queue();
